@@ -45,7 +45,7 @@ theorem exec_gaveUp (pr : Params) (p p' : Pid) (f : Bool) (hk : (s.procs p).kill
   · subst hp
     revert hg hl hk
     unfold exec gaveUp
-    split <;> simp only [setPc, modInode, nextFetch] <;> (repeat' split) <;> simp_all [upd_apply]
+    split <;> simp only [setPc, modInode, afterFetch] <;> (repeat' split) <;> simp_all [upd_apply]
   · rw [exec_procs_ne _ hp]; exact ⟨hg, hl⟩
 
 theorem step_gaveUp (p p' : Pid) (c : Choice)
@@ -114,13 +114,13 @@ theorem step_sets_linked (p p' : Pid) (c : Choice)
       by_cases hp : p' = p
       · subst hp
         unfold exec
-        split <;> simp only [setPc, modInode, nextFetch] <;> (repeat' split) <;> simp_all [upd_apply] <;> grind
+        split <;> simp only [setPc, modInode, afterFetch] <;> (repeat' split) <;> simp_all [upd_apply] <;> grind
       · rw [exec_procs_ne _ hp]; simp_all
     | fail =>
       by_cases hp : p' = p
       · subst hp
         unfold exec
-        split <;> simp only [setPc, modInode, nextFetch] <;> (repeat' split) <;> simp_all [upd_apply]
+        split <;> simp only [setPc, modInode, afterFetch] <;> (repeat' split) <;> simp_all [upd_apply]
       · rw [exec_procs_ne _ hp]; simp_all
 
 end ArchiveFS
